@@ -90,7 +90,7 @@ CHECKS = {
     technique="TLA+ loop model checked by TLC; real SIMD evaluators driven through a tracing context and real contexts; trace validation (result identity + access ranges) by TLC",
     design="5/C12"),
  "C11": dict(
-    text="StaticInfo.tla defines soundness of the five compile-time traits against a run-time shape and a per-axis abstract domain (Const n | Clip m | Dyn) with concretisation and abstract transfer functions for transpose, flatten, reduce and broadcast, and the index type the axes of a shape are joined into (AbsJoin); TLC checks soundness of the traits, of every transfer function and of the join on the bounded domain (drv_clipped binds the join: range of the library's common type, every extent read at a run-time position, product, for 34 clipped bound tuples x every extent tuple). The driver instantiates view TYPES from leaves of seven static-knowledge kinds and programs with compile-time-constant or run-time arguments, logs the traits of the type and of the type eval() chose next to shape()/dim()/size() and all elements of OBJECTS for every run-time shape the leaf admits, and TraceStatic.tla validates soundness and completeness of the evaluation; binary views (concatenate with run-time / compile-time / None axis, add, stack) run over every pair of seven leaf kinds that compiles and every admitted pair of run-time shapes, and every object is additionally validated against the reference semantics (TraceOps.tla), so a result clamped to an operand's bound is rejected.",
+    text="StaticInfo.tla defines soundness of the five compile-time traits against a run-time shape and a per-axis abstract domain (Const n | Clip m | Dyn) with concretisation and abstract transfer functions for transpose, flatten, reduce, broadcast, concatenate, tile and take, and the index type the axes of a shape are joined into (AbsJoin); TLC checks soundness of the traits, of every transfer function and of the join on the bounded domain (drv_clipped binds the join: range of the library's common type, every extent read at a run-time position, product, for 34 clipped bound tuples x every extent tuple). The driver instantiates view TYPES from leaves of seven static-knowledge kinds and programs with compile-time-constant or run-time arguments, logs the traits of the type and of the type eval() chose next to shape()/dim()/size() and all elements of OBJECTS for every run-time shape the leaf admits, and TraceStatic.tla validates soundness and completeness of the evaluation; binary views (concatenate with run-time / compile-time / None axis, add, stack) run over every pair of seven leaf kinds that compiles and every admitted pair of run-time shapes, and every object is additionally validated against the reference semantics (TraceOps.tla), so a result clamped to an operand's bound is rejected.",
     note="Trusted: TLC, StaticInfo.tla, Denote, drv_static.cpp, drv_static2.cpp (combination table harness/drivers/static2_combos.inc found by trial compilation). Array-of-clipped-shape leaves compose only with flatten/reshape (compile-time API limitation; the tuple-of-clipped leaf composes with every view); depth-3 types are not generated; the clamp/capacity hooks of the design are replaced by the end-to-end check 'eval returned every element'.",
     technique="TLA+ abstract-interpretation model checked by TLC; generated view types instantiated over every admitted run-time shape; trace validation by TLC",
     design="5/C11"),
